@@ -880,96 +880,12 @@ func (s *Server) handleRelease(req *dhcpv4.DHCPv4) {
 	}
 
 	if exists {
-		// Send RADIUS Accounting-Stop
-		if s.radiusClient != nil && lease.SessionID != "" {
-			sessionTime := uint32(time.Since(lease.SessionStart).Seconds())
-			go func() {
-				err := s.radiusClient.SendAccounting(context.Background(), &radius.AcctRequest{
-					SessionID:      lease.SessionID,
-					Username:       mac.String(),
-					MAC:            mac,
-					FramedIP:       lease.IP,
-					StatusType:     radius.AcctStatusStop,
-					InputOctets:    lease.InputBytes,
-					OutputOctets:   lease.OutputBytes,
-					SessionTime:    sessionTime,
-					TerminateCause: radius.TerminateCauseUserRequest,
-					Class:          lease.Class,
-				})
-				if err != nil {
-					s.logger.Warn("Failed to send RADIUS Accounting-Stop",
-						zap.String("session_id", lease.SessionID),
-						zap.Error(err),
-					)
-				}
-			}()
-		}
-
-		// Remove QoS policy
-		if s.qosMgr != nil {
-			if err := s.qosMgr.RemoveSubscriberQoS(lease.IP); err != nil {
-				s.logger.Warn("Failed to remove QoS policy",
-					zap.String("ip", lease.IP.String()),
-					zap.Error(err),
-				)
-			}
-		}
-
-		// Deallocate NAT
-		if s.natMgr != nil {
-			if err := s.natMgr.DeallocateNAT(lease.IP); err != nil {
-				s.logger.Warn("Failed to deallocate NAT",
-					zap.String("ip", lease.IP.String()),
-					zap.Error(err),
-				)
-			}
-		}
+		// Accounting-Stop, QoS, NAT and every fast-path cache entry
+		s.releaseLeaseResources(mac, lease, radius.TerminateCauseUserRequest)
 
 		// Release IP back to pool
 		if pool := s.poolMgr.GetPool(lease.PoolID); pool != nil {
 			pool.Release(lease.IP)
-		}
-
-		// Remove from fast path cache (MAC-based)
-		macU64 := ebpf.MACToUint64(mac)
-		if err := s.loader.RemoveSubscriber(macU64); err != nil {
-			s.logger.Warn("Failed to remove from fast path cache",
-				zap.String("mac", mac.String()),
-				zap.Error(err),
-			)
-		}
-
-		// Remove from VLAN-based cache for QinQ deployments
-		if (lease.STag > 0 || lease.CTag > 0) && s.loader.HasVLANSupport() {
-			if err := s.loader.RemoveVLANSubscriber(lease.STag, lease.CTag); err != nil {
-				s.logger.Warn("Failed to remove from VLAN fast path cache",
-					zap.Uint16("s_tag", lease.STag),
-					zap.Uint16("c_tag", lease.CTag),
-					zap.Error(err),
-				)
-			}
-		}
-
-		// Issue #15: Remove circuit-id to MAC mapping if present
-		if len(lease.CircuitID) > 0 {
-			if err := s.loader.RemoveCircuitIDMapping(lease.CircuitID); err != nil {
-				s.logger.Warn("Failed to remove circuit-id to MAC mapping",
-					zap.String("mac", mac.String()),
-					zap.String("circuit_id", string(lease.CircuitID)),
-					zap.Error(err),
-				)
-			}
-
-			// Issue #56: Remove circuit-id subscriber mapping
-			if s.loader.HasCircuitIDSubscriberSupport() {
-				if err := s.loader.RemoveCircuitIDSubscriber(lease.CircuitID); err != nil {
-					s.logger.Warn("Failed to remove circuit-id subscriber mapping",
-						zap.String("mac", mac.String()),
-						zap.String("circuit_id", string(lease.CircuitID)),
-						zap.Error(err),
-					)
-				}
-			}
 		}
 
 		s.logger.Info("DHCP RELEASE processed",
@@ -980,6 +896,103 @@ func (s *Server) handleRelease(req *dhcpv4.DHCPv4) {
 	}
 
 	atomic.AddUint64(&s.releasesTotal, 1)
+}
+
+// releaseLeaseResources tears down everything a lease holds besides its pool address and its
+// lease-table entries (which the caller has already claimed): RADIUS Accounting-Stop, QoS policy,
+// NAT block and every fast-path cache entry. Shared by RELEASE, DECLINE and lease expiry so that
+// every way a lease ends releases the same set.
+func (s *Server) releaseLeaseResources(mac net.HardwareAddr, lease *Lease, terminateCause uint32) {
+	// Send RADIUS Accounting-Stop
+	if s.radiusClient != nil && lease.SessionID != "" {
+		sessionTime := uint32(time.Since(lease.SessionStart).Seconds())
+		go func() {
+			err := s.radiusClient.SendAccounting(context.Background(), &radius.AcctRequest{
+				SessionID:      lease.SessionID,
+				Username:       mac.String(),
+				MAC:            mac,
+				FramedIP:       lease.IP,
+				StatusType:     radius.AcctStatusStop,
+				InputOctets:    lease.InputBytes,
+				OutputOctets:   lease.OutputBytes,
+				SessionTime:    sessionTime,
+				TerminateCause: terminateCause,
+				Class:          lease.Class,
+			})
+			if err != nil {
+				s.logger.Warn("Failed to send RADIUS Accounting-Stop",
+					zap.String("session_id", lease.SessionID),
+					zap.Error(err),
+				)
+			}
+		}()
+	}
+
+	// Remove QoS policy
+	if s.qosMgr != nil {
+		if err := s.qosMgr.RemoveSubscriberQoS(lease.IP); err != nil {
+			s.logger.Warn("Failed to remove QoS policy",
+				zap.String("ip", lease.IP.String()),
+				zap.Error(err),
+			)
+		}
+	}
+
+	// Deallocate NAT
+	if s.natMgr != nil {
+		if err := s.natMgr.DeallocateNAT(lease.IP); err != nil {
+			s.logger.Warn("Failed to deallocate NAT",
+				zap.String("ip", lease.IP.String()),
+				zap.Error(err),
+			)
+		}
+	}
+
+	if s.loader == nil {
+		return
+	}
+
+	// Remove from fast path cache (MAC-based)
+	macU64 := ebpf.MACToUint64(mac)
+	if err := s.loader.RemoveSubscriber(macU64); err != nil {
+		s.logger.Warn("Failed to remove from fast path cache",
+			zap.String("mac", mac.String()),
+			zap.Error(err),
+		)
+	}
+
+	// Remove from VLAN-based cache for QinQ deployments
+	if (lease.STag > 0 || lease.CTag > 0) && s.loader.HasVLANSupport() {
+		if err := s.loader.RemoveVLANSubscriber(lease.STag, lease.CTag); err != nil {
+			s.logger.Warn("Failed to remove from VLAN fast path cache",
+				zap.Uint16("s_tag", lease.STag),
+				zap.Uint16("c_tag", lease.CTag),
+				zap.Error(err),
+			)
+		}
+	}
+
+	// Issue #15: Remove circuit-id to MAC mapping if present
+	if len(lease.CircuitID) > 0 {
+		if err := s.loader.RemoveCircuitIDMapping(lease.CircuitID); err != nil {
+			s.logger.Warn("Failed to remove circuit-id to MAC mapping",
+				zap.String("mac", mac.String()),
+				zap.String("circuit_id", string(lease.CircuitID)),
+				zap.Error(err),
+			)
+		}
+
+		// Issue #56: Remove circuit-id subscriber mapping
+		if s.loader.HasCircuitIDSubscriberSupport() {
+			if err := s.loader.RemoveCircuitIDSubscriber(lease.CircuitID); err != nil {
+				s.logger.Warn("Failed to remove circuit-id subscriber mapping",
+					zap.String("mac", mac.String()),
+					zap.String("circuit_id", string(lease.CircuitID)),
+					zap.Error(err),
+				)
+			}
+		}
+	}
 }
 
 // handleDecline handles DHCP DECLINE
@@ -1001,6 +1014,17 @@ func (s *Server) handleDecline(req *dhcpv4.DHCPv4) {
 	s.leasesMu.Unlock()
 
 	if exists && lease != nil {
+		// Remove from circuit-ID secondary index
+		if len(lease.CircuitID) > 0 {
+			cidKey := hex.EncodeToString(lease.CircuitID)
+			s.leasesByCircuitIDMu.Lock()
+			delete(s.leasesByCircuitID, cidKey)
+			s.leasesByCircuitIDMu.Unlock()
+		}
+
+		// The session is over: Accounting-Stop, QoS, NAT and fast-path entries go with it
+		s.releaseLeaseResources(mac, lease, radius.TerminateCauseUserRequest)
+
 		if pool := s.poolMgr.GetPool(lease.PoolID); pool != nil {
 			pool.MarkUnavailable(declinedIP)
 		}
@@ -1128,10 +1152,20 @@ func (s *Server) cleanupExpiredLeases() {
 		return
 	}
 
+	type expiredLease struct {
+		mac   string
+		lease *Lease
+	}
+	var removed []expiredLease
+
 	s.leasesMu.Lock()
 	for _, mac := range expired {
 		lease := s.leases[mac]
+		if lease == nil {
+			continue // released or declined since the scan
+		}
 		delete(s.leases, mac)
+		removed = append(removed, expiredLease{mac, lease})
 
 		// Remove from circuit-ID secondary index
 		if len(lease.CircuitID) > 0 {
@@ -1146,16 +1180,15 @@ func (s *Server) cleanupExpiredLeases() {
 			pool.Release(lease.IP)
 		}
 
-		// Remove from fast path cache
-		if s.loader != nil {
-			hwAddr, _ := net.ParseMAC(mac)
-			if hwAddr != nil {
-				macU64 := ebpf.MACToUint64(hwAddr)
-				s.loader.RemoveSubscriber(macU64)
-			}
-		}
 	}
 	s.leasesMu.Unlock()
+
+	// Accounting-Stop, QoS, NAT and every fast-path cache entry, outside the lease lock
+	for _, e := range removed {
+		if hwAddr, err := net.ParseMAC(e.mac); err == nil {
+			s.releaseLeaseResources(hwAddr, e.lease, radius.TerminateCauseSessionTimeout)
+		}
+	}
 
 	s.logger.Info("Cleaned up expired leases",
 		zap.Int("count", len(expired)),
